@@ -118,6 +118,7 @@ def pretty_list_elems(parent_event: MarshalEvent, events_generator):
     if is_tpm2b:
         # consume all list elements
         child_buffer = b""
+        info_events = []
         while True:
             # get next (potential) child_event
             try:
@@ -127,7 +128,8 @@ def pretty_list_elems(parent_event: MarshalEvent, events_generator):
                 break
 
             if not isinstance(child_event, MarshalEvent):
-                yield from pretty(child_event)
+                # belongs after the buffer it follows
+                info_events.append(child_event)
                 continue
 
             # abort if it is not a list element
@@ -139,6 +141,8 @@ def pretty_list_elems(parent_event: MarshalEvent, events_generator):
         filter = b"................................ !\"#$%&'()*+,-./0123456789:;<=>?@ABCDEFGHIJKLMNOPQRSTUVWXYZ[\\]^_`abcdefghijklmnopqrstuvwxyz{|}~................................................................................................................................."
         printable = child_buffer.translate(filter).decode()
         yield format(parent_event.type, parent_event.path, child_buffer, printable)
+        for info_event in info_events:
+            yield from pretty(info_event)
         return child_event
     else:
         # consume all list elements
